@@ -7,6 +7,7 @@
 import Oryx.Proofs.WsSession
 import Oryx.Proofs.WsHandshake
 import Oryx.Spec.Sha1
+import Oryx.Proofs.WsDeadline
 namespace Oryx.Props.C13
 open Oryx Oryx.WsWrite Oryx.Spec.Ws Oryx.Gen.Websocket
 
@@ -249,6 +250,41 @@ specification on every key it uses. -/
 theorem hs_accept_key_rfc_sample :
     Oryx.Spec.Sha1.acceptKey (Oryx.Model.WsHs.ascii "dGhlIHNhbXBsZSBub25jZQ==") = Oryx.Model.WsHs.ascii "s3pPLMBiTxaQ9kYGzzhZRbK+xOo=" := by
   decide +kernel
+
+section
+open Oryx.Model.WsDeadline Oryx.Proofs.WsDeadline
+/-- the library's write paths under the fact the translator reads from conn.go on every run -/
+def libDeadlineRun := run Oryx.Gen.Websocket.writesArmOwnDeadline
+
+/-- gate: every function that writes to the transport arms it with the deadline of its own write, unconditionally -/
+theorem ws_deadline_fact : Oryx.Gen.Websocket.writesArmOwnDeadline = true := by decide
+
+/-- **The shared write deadline never leaks from one frame to another**: for EVERY history of data writes (under the
+connection's write deadline of the moment, possibly none) and control writes (each under the deadline of its call —
+the pongs and close replies the library sends by itself included), from any state of the transport, the outcome of each
+write and the frames on the wire are those of the specification in which a write depends only on its own deadline and
+on the documented latch (an earlier data write that timed out). -/
+theorem ws_deadline_own (c : Conn) (ops : List Op) :
+    abs (libDeadlineRun c ops).1 = (specRun (abs c) ops).1 ∧ (libDeadlineRun c ops).2 = (specRun (abs c) ops).2 := by
+  unfold libDeadlineRun; rw [ws_deadline_fact]; exact run_refines c ops
+
+/-- ... in particular a history whose writes all respect their own deadlines (none, or not yet passed) succeeds
+entirely and reaches the wire in order, whatever deadline an earlier frame had left armed on the transport. -/
+theorem ws_deadline_all_delivered (c : Conn) (ops : List Op) (hl : c.latched = false)
+    (h : ∀ op ∈ ops, op.ownDeadlineOk = true) :
+    (libDeadlineRun c ops).2 = ops.map (fun _ => true) ∧ (libDeadlineRun c ops).1.wire = c.wire ++ ops.map Op.id := by
+  unfold libDeadlineRun; rw [ws_deadline_fact]; exact all_ok c ops hl h
+
+/-- the hypothesis of `ws_deadline_fact` matters: the variant that skips arming for "no deadline" loses a message -/
+theorem ws_deadline_skip_variant_breaks :
+    (run false {} [.control 0 (some 1) 1, .data 5 none 2]).2 = [true, false] ∧
+    (specRun {} [.control 0 (some 1) 1, .data 5 none 2]).2 = [true, true] := skip_when_none_breaks
+
+/-- non-vacuity: a transport with an expired deadline armed; a pong, five time units later a data message without a
+deadline, a data message whose own deadline has passed (fails and latches), and a ping after that -/
+example : libDeadlineRun { armed := some 0 } [.control 10 (some 11) 1, .data 15 none 2, .data 16 (some 15) 3, .control 17 none 4] =
+    ({ armed := some 15, latched := true, wire := [1, 2] }, [true, true, false, false]) := by decide
+end
 
 /-- gate: the specification's GUID is the one util.go hashes -/
 example : Oryx.Spec.Sha1.guid = Oryx.Model.WsHs.ascii Oryx.Gen.Websocket.keyGUID := by decide +kernel
